@@ -6,6 +6,7 @@ import hashlib
 import json
 import os
 
+import cdriver
 import pipeline as pl
 
 CODEC = {'C09': 'uper', 'C10': 'oer'}
@@ -25,7 +26,7 @@ def generate_cases(run, codec, tier):
     """Binding A universe: BFS over CGen (+ simulation for deeper nestings)."""
     if tier == 'quick':
         bfs = [(1, False)]
-        sim = ('num=60', 3)
+        sim = ('num=6', 3)
     else:
         bfs = [(1, True), (2, False)]
         sim = ('num=1500', 4)
@@ -66,12 +67,20 @@ def run_check(prop, tier, seed, cases=None):
         cpath = run.path('cases.ndjson')
         pl.write_cases(cases, cpath)
         adv = '120' if tier == 'quick' else '200'
+        main_exe = run.path('drv_main')
+        rc, txt = cdriver.build_main(run.path('drv_main.c'), main_exe)
+        if rc != 0:
+            raise pl.Machinery('cannot build the generic driver program:\n' + txt[-2000:])
         shards = pl.drive(run, 'drive_cgen.py', cpath, 'trace',
-                          ['--codec', codec, '--seed', str(seed), '--adv', adv, '--batch', '25'],
+                          ['--codec', codec, '--seed', str(seed), '--adv', adv, '--batch', '30', '--main', main_exe],
                           nshards=NSHARDS, timeout=7200)
         reports = pl.validate(run, 'Trace_CGen', TRACE_CFG, shards, what='Trace_CGen %s' % codec, heap='3g')
         idx = pl.load_trace_index(shards)
         pl.classify(run, reports, idx, prop)
+        by_cid = {c['cid']: c for c in cases}
+        for v in run.violations:      # a replay needs the generated case (expected struct images), not only the trace line
+            if v.get('case') and v['cid'] in by_cid:
+                v['case'] = dict(v['case'], gencase=by_cid[v['cid']])
         account(run, idx, cases)
         run.assumptions = [
             'TLC and SANY are correct; spec/CSubset.tla states the documented subset (README "Limitations by design" / '
@@ -140,7 +149,5 @@ def c10(tier, seed):
 
 def replay(prop, rp, seed):
     """Re-execute exactly the recorded case (rp = a replay file written by pipeline.finish)."""
-    case = dict(rp['case'])
-    for k in ('gen', 'cc', 'obs', 'adv', 'pairs', 'crashes', 'emitted', 'cstruct', 'asn1', 'csrc', 'header_error'):
-        case.pop(k, None)
+    case = dict(rp['case']['gencase'])
     return run_check(prop, rp.get('tier', 'quick'), rp.get('seed', seed), cases=[case])
